@@ -309,6 +309,19 @@ theorem step_eb (s : PState) (op : Op) (h : EB s) : EB (step s op) := by
         rw [gholds_of_kind q u o (by intro t'; rw [hk]; simp)] at hto
         omega
       · simp only [hk, if_false]; exact hq
+  | intoInner f =>
+    simp only [step]
+    cases ht : take f s.owners with
+    | none => exact hq
+    | some p =>
+      obtain ⟨o, rest⟩ := p
+      simp only []
+      have hto := take_gown q u f _ o rest ht
+      by_cases hk : o.kind = .future
+      · simp only [hk, if_true, doClose_ebal, doClose_owners]
+        rw [gholds_of_kind q u o (by intro t'; rw [hk]; simp)] at hto
+        omega
+      · simp only [hk, if_false]; exact hq
   | setDefault t c => exact hq
 
 /-- **C03.enter_exit_balance** — for EVERY finite program, every span and every thread: enters minus exits seen by the
